@@ -269,3 +269,47 @@ package tcp
 //@   modifies s.resendTimer.state, s.resendTimer.target, s.resendTimer.runtimeTarget, s.ep.rcv.rcvAcc
 //@   modifies s.ep.keepalive.unacked, s.ep.keepalive.timer.state, s.ep.keepalive.timer.target, s.ep.keepalive.timer.runtimeTarget
 //@   modifies structfamily(segment), elemfamily(buffer.View), structfamily(stack.referencedNetworkEndpoint), ghost(sentNonFin), ghost(sentFin)
+
+// ---------------------------------------------------------------------------
+// Segment construction and stray segments (C06, C03, C07).
+// ghost(tcpSegs) counts TCP segments handed to the network layer; ghost(lastTCPFlags),
+// ghost(lastTCPSeq), ghost(lastTCPAck) are read back from the header bytes of the last one
+// (see stack.Route.WritePacket in stack/contracts_verif.go).
+
+// sendTCP emits exactly one segment carrying the given flags, sequence and acknowledgement
+// numbers, with a data offset that covers the 20 header bytes and the options.
+//@ func sendTCP props C06 C03 C07
+//@   requires r != nil && len(opts) <= 40 && len(opts) % 4 == 0 && 0 <= data.size && data.size <= 1 << 30
+//@   requires forall(k, 0, len(data.views), len(data.views[k]) <= 65536)
+//@   ensures ghost(tcpSegs) == old(ghost(tcpSegs)) + 1
+//@   ensures ghost(lastTCPFlags) == int(flags) && ghost(lastTCPSeq) == int(uint32(seq)) && ghost(lastTCPAck) == int(uint32(ack))
+//@   loop 1 invariant -1 <= rangeindex && rangeindex < len(data.views)
+//@   modifies everything()
+
+// A parsed segment: the fields are those of the header; the data offset must lie between 20
+// and the bytes present in the first view, otherwise parsing fails and nothing is read beyond
+// the view. (The caller has checked that at least 20 bytes are present.)
+//@ func (*segment).parse props C07 C03
+//@   requires s != nil && len(s.data.views) >= 1 && len(s.data.views[0]) >= header.TCPMinimumSize
+//@   ensures result == (int(old(s.data.views[0][12]) >> 4) * 4 >= header.TCPMinimumSize && int(old(s.data.views[0][12]) >> 4) * 4 <= old(len(s.data.views[0])))
+//@   ensures implies(result, s.sequenceNumber == seqnum.Value(be32(old(s.data.views[0]), 4)) && s.ackNumber == seqnum.Value(be32(old(s.data.views[0]), 8))
+//@             && s.flags == old(s.data.views[0][13]) && s.window == seqnum.Size(be16(old(s.data.views[0]), 14)))
+//@   modifies s.options, s.parsedOptions, s.data.views, s.data.size, elems(s.data.views), s.sequenceNumber, s.ackNumber, s.flags, s.window
+
+// A reset in reply to a segment: exactly one segment, RST|ACK, whose sequence number is the
+// acknowledgement number of the offending segment (0 if it carried no ACK) and which
+// acknowledges everything the offending segment occupied.
+//@ func replyWithReset props C03 C07
+//@   requires s != nil
+//@   ensures ghost(tcpSegs) == old(ghost(tcpSegs)) + 1 && ghost(lastTCPFlags) == int(flagRst | flagAck)
+//@   ensures ghost(lastTCPSeq) == ite(old(s.flags) & flagAck != 0, int(uint32(old(s.ackNumber))), 0)
+//@   ensures ghost(lastTCPAck) == int(uint32(old(s.sequenceNumber) + seqnum.Value(old(s.logicalLen()))))
+//@   modifies everything()
+
+// A segment for which no socket exists: unparsable segments and resets are not answered;
+// anything else is answered by exactly one reset.
+//@ func (*protocol).HandleUnknownDestinationPacket props C03 C07
+//@   requires r != nil && len(vv.views) >= 1 && len(vv.views[0]) >= header.TCPMinimumSize && 0 <= vv.size && vv.size <= 1 << 40
+//@   ensures ghost(tcpSegs) == old(ghost(tcpSegs)) || (result && ghost(tcpSegs) == old(ghost(tcpSegs)) + 1 && ghost(lastTCPFlags) == int(flagRst | flagAck) && old(vv.views[0][13]) & flagRst == 0)
+//@   ensures implies(result && old(vv.views[0][13]) & flagRst != 0, ghost(tcpSegs) == old(ghost(tcpSegs)))
+//@   modifies everything()
